@@ -443,6 +443,20 @@ def txt_chunks(ctx, report, rule='C08.R7'):
 
 # ---- R10: a parser whose consumed length is not reported has to have consumed everything ---------------------------------
 
+def makes_parser(f, call):
+    """is the call one to a helper method of the class (``cls.m(...)`` / ``self.m(...)``) every return of which hands back a
+    parser constructed there over the bytes it was given?"""
+    from ..astutil import returned
+    fn = call.func
+    if not (isinstance(fn, ast.Attribute) and isinstance(fn.value, ast.Name) and fn.value.id in ('cls', 'self') and f.cls is not None):
+        return False
+    m = f.cls.resolve(fn.attr)
+    if m is None or m.module.external or m is f:
+        return False
+    rets = returned(m.node)
+    return bool(rets) and all(isinstance(r, ast.Call) and ast.unparse(r.func) in ('ParserBinary', 'ParserText') for r in rets)
+
+
 def complete_consumption(ctx, report, rule='C08.R10', scope=('cryptoparser/dnsrec/record.py',)):
     """A function that builds a parser over bytes it was handed and returns an object without that parser's parsed_length
     gives its caller no way to notice unread bytes: it has to test ``<parser>.unparsed_length`` itself (and raise), otherwise
@@ -455,7 +469,7 @@ def complete_consumption(ctx, report, rule='C08.R10', scope=('cryptoparser/dnsre
         made = {}
         for n in ast.walk(f.node):
             if isinstance(n, ast.Assign) and len(n.targets) == 1 and isinstance(n.targets[0], ast.Name) and isinstance(n.value, ast.Call) and \
-                    ast.unparse(n.value.func) in ('ParserBinary', 'ParserText'):
+                    (ast.unparse(n.value.func) in ('ParserBinary', 'ParserText') or makes_parser(f, n.value)):
                 made[n.targets[0].id] = n
         for name in made:
             report.count(rule)
